@@ -67,4 +67,15 @@ HexNat(n) == IF n < 16 THEN HexDigit(n) ELSE HexNat(n \div 16) \o HexDigit(n % 1
 RECURSIVE Zeros(_)
 Zeros(k) == IF k <= 0 THEN "" ELSE "0" \o Zeros(k - 1)
 Hex(n, w) == LET s == HexNat(n) IN Zeros(w - Len(s)) \o s          \* n >= 0
+
+\* base64 (RFC 4648 alphabet, padded) of a byte sequence
+B64Alphabet == "ABCDEFGHIJKLMNOPQRSTUVWXYZabcdefghijklmnopqrstuvwxyz0123456789+/"
+B64Ch(n) == SubSeq(B64Alphabet, n + 1, n + 1)
+RECURSIVE B64(_)
+B64(bs) ==
+  IF Len(bs) = 0 THEN ""
+  ELSE IF Len(bs) = 1 THEN B64Ch(bs[1] \div 4) \o B64Ch((bs[1] % 4) * 16) \o "=="
+  ELSE IF Len(bs) = 2 THEN B64Ch(bs[1] \div 4) \o B64Ch((bs[1] % 4) * 16 + bs[2] \div 16) \o B64Ch((bs[2] % 16) * 4) \o "="
+  ELSE B64Ch(bs[1] \div 4) \o B64Ch((bs[1] % 4) * 16 + bs[2] \div 16) \o B64Ch((bs[2] % 16) * 4 + bs[3] \div 64) \o B64Ch(bs[3] % 64)
+       \o B64(SubSeq(bs, 4, Len(bs)))
 =============================================================================
